@@ -385,6 +385,8 @@ class TermInterp:
             ix = Idx(fresh(d), d)
         elif d is not None and len(it.args) == 2:
             lo = it.args[0]
+            if isinstance(lo, ast.BinOp) and isinstance(lo.op, ast.Add) and isinstance(lo.left, ast.Constant) and lo.left.value == 1:
+                lo = ast.BinOp(left=lo.right, op=lo.op, right=lo.left)
             if isinstance(lo, ast.BinOp) and isinstance(lo.op, ast.Add) and isinstance(lo.right, ast.Constant) and lo.right.value == 1:
                 other = self.ev(lo.left)
                 if isinstance(other, Idx) and other.dim == d:
